@@ -30,6 +30,9 @@ def boundary_jobs(U, ecos, rnd, quick, maxval=None):
                 m2 = rnd.choice(runs)
                 for b in BOUNDARY + ZEROLED:
                     texts.append(t[:m.start()] + str(b) + t[m.end():]); part.append(p)
+                if runs[0].start() != m.start():                              # epochs and major numbers come first
+                    for b in ZEROLED + [8, 9, 10, 11, 100, 2147483648]:
+                        texts.append(t[:runs[0].start()] + str(b) + t[runs[0].end():]); part.append(p)
                 # the bare numeric head of the template (1.0 for 1.0.dev3) and its zero-extended spellings: what the
                 # boundary variants of a pre/post/dev/qualifier number have to be ordered against
                 h = _HEAD.match(t)
